@@ -290,7 +290,7 @@ func (h *hist) evQuery() {
 	if drop {
 		return
 	}
-	r, ok := h.waitOut(p.addr.String(), "r", []byte(t), 5*time.Second)
+	r, ok := h.waitOut(p.addr.String(), "r", []byte(t), 30*time.Second)
 	if !ok {
 		if _, isErr := h.waitOut(p.addr.String(), "e", []byte(t), 100*time.Millisecond); isErr {
 			return
@@ -365,7 +365,7 @@ func (h *hist) evResponse(questionable bool) {
 		}
 		return
 	}
-	q, ok := h.waitOut(p.addr.String(), "q", nil, 5*time.Second)
+	q, ok := h.waitOut(p.addr.String(), "q", nil, 30*time.Second)
 	if !ok {
 		fail("our ping to %v was never written", p.addr)
 	}
@@ -467,7 +467,7 @@ func (h *hist) evAddNode() {
 	if p.id == (krpc.ID{}) {
 		// a zero ID makes AddNode ping the address from a goroutine instead: consume that datagram,
 		// so that it is not mistaken for one of the driver's own pings later
-		if _, ok := h.waitOut(p.addr.String(), "q", nil, 5*time.Second); !ok {
+		if _, ok := h.waitOut(p.addr.String(), "q", nil, 30*time.Second); !ok {
 			fail("AddNode with a zero ID did not ping %v", p.addr)
 		}
 	}
@@ -489,7 +489,7 @@ func (h *hist) evPing(snap []dht.VerifNode) {
 	ctx, cancel := context.WithCancel(context.Background())
 	done := make(chan struct{})
 	go func() { defer close(done); h.srv.VerifQuestionablePing(ctx, dht.NewAddr(p.addr), p.id) }()
-	q, ok := h.waitOut(p.addr.String(), "q", nil, 5*time.Second)
+	q, ok := h.waitOut(p.addr.String(), "q", nil, 30*time.Second)
 	if !ok {
 		fail("questionable ping to %v was never written", p.addr)
 	}
